@@ -1,2 +1,269 @@
-(* Property C14 - statements only (proofs in Proofs/C14.v). Not built yet. *)
-From SC.Model Require Import Base.
+(* Property C14 - unix timestamps convert to and from date-times as mutual inverses.
+   STATEMENTS ONLY (proofs: Proofs/C14.v).  Model functions: RuleFns.from_unixtime / to_unixtime /
+   at_date (the three rules), Chrono.dt_of / day_of_dt / secs_of_day / dt_ok (NaiveDateTime as
+   seconds since the epoch), Format.datetime_print (DateTimeItem::print), Format.item_print on
+   a Raw number and Parser.Z_to_str (the printed timestamp), Format.parse_i64 (the reader).
+   Spec: Spec/Calendar.v (days_from_civil / civil_from_days / valid_date) and, from Proofs/C14.v,
+   civil_of_ts n = (civil date of n / 86400, h:m:s of n mod 86400) with floor division,
+   ts_of_civil = its inverse, local_of t off = t + 60 * off, field_is (a rule field holds an item
+   directly or through a variable), instant_of, shown_zone, ndigits. *)
+From SC.Model Require Import Base Num NumQ NumF64 Types Config Case Chrono Parser RuleFns Items Format Run64 Api Corr FloatIO.
+From SC.Gen Require Import ConfigData.
+From SC.Spec Require Import Calendar.
+From SC.Proofs Require Import C14.
+From Coq Require Import ZArith QArith Qcanon Floats.
+Local Open Scope Z_scope.
+
+(* an instant is a day number and a second of that day - every integer, negatives included
+   (floor division: one second before the epoch is 23:59:59 of the day before) *)
+Theorem C14_instant_decompose : forall n,
+  dt_of (day_of_dt n) (secs_of_day n) = n /\ 0 <= secs_of_day n < 86400.
+Proof. exact instant_decompose. Qed.
+
+Theorem C14_instant_compose : forall d sec, 0 <= sec < 86400 ->
+  day_of_dt (dt_of d sec) = d /\ secs_of_day (dt_of d sec) = sec.
+Proof. exact instant_compose. Qed.
+
+(* timestamp -> civil (y, m, d) (h, mi, s) -> timestamp is the identity, for every timestamp *)
+Theorem C14_civil_ts_roundtrip : forall n,
+  valid_ymd (fst (civil_of_ts n)) /\ valid_hms (snd (civil_of_ts n)) /\
+  ts_of_civil (fst (civil_of_ts n)) (snd (civil_of_ts n)) = n.
+Proof. exact civil_ts_roundtrip. Qed.
+
+(* civil -> timestamp -> civil is the identity, for every valid date and time of day *)
+Theorem C14_ts_civil_roundtrip : forall y m d h mi sec,
+  valid_date y m d = true -> 0 <= h < 24 /\ 0 <= mi < 60 /\ 0 <= sec < 60 ->
+  civil_of_ts (dt_of (days_from_civil y m d) (h * 3600 + mi * 60 + sec)) = ((y, m, d), (h, mi, sec)).
+Proof. exact ts_civil_roundtrip. Qed.
+
+(* the timestamps of the years 1..9999 are -62135596800 .. 253402300799, all accepted *)
+Theorem C14_years_1_9999 : forall n,
+  (-62135596800 <= n <= 253402300799 <-> 1 <= year_of (day_of_dt n) <= 9999) /\
+  (-62135596800 <= n <= 253402300799 -> dt_ok n = true).
+Proof. exact years_1_9999. Qed.
+
+Section WithNum.
+Context {F : Type} {NF : Num F}.
+
+(* '<date> as unix' = 86400 * day number (midnight UTC), '<time>' and '<date-time> as unix' =
+   their instant; the zone the item is displayed in does not enter *)
+Theorem C14_to_unixtime : forall (vs : vars F) (fs : fields F),
+  (forall d z, field_is vs "data" fs (IDate d z) ->
+     to_unixtime vs fs = Ok (Some (TNumber (fofZ (86400 * d)) Raw))) /\
+  (forall t z, field_is vs "data" fs (IDateTime t z) ->
+     to_unixtime vs fs = Ok (Some (TNumber (fofZ t) Raw))) /\
+  (forall t z, field_is vs "data" fs (ITime t z) ->
+     to_unixtime vs fs = Ok (Some (TNumber (fofZ t) Raw))).
+Proof. exact to_unixtime_cases. Qed.
+
+(* 'N to date' / 'N to ZONE': the instant is N itself; only the zone shown differs; an instant
+   outside chrono's range is declined, never a panic *)
+Theorem C14_from_unixtime : forall (cfg : config F) (vs : vars F) (fs : fields F) x nt,
+  field_is vs "number" fs (INumber x nt) ->
+  from_unixtime cfg vs fs =
+    Ok (if dt_ok (as_i64 x) then Some (TDateTime (as_i64 x) (shown_zone cfg vs fs)) else None) /\
+  (assoc (s "timezone") fs = None -> shown_zone cfg vs fs = cf_tz cfg) /\
+  (forall ti n o, assoc (s "timezone") fs = Some ti -> ti_ty ti = Some (TTimezone n o) ->
+     shown_zone cfg vs fs = {| tz_name := to_uppercase n; tz_off := o |}).
+Proof. exact from_unixtime_cases. Qed.
+
+(* mutual inverses at the level of the rules: N -> date-time -> N ... *)
+Theorem C14_roundtrip_number : forall (cfg : config F) (vs : vars F) (fs : fields F) n nt,
+  field_is vs "number" fs (INumber (fofZ n) nt) -> as_i64 (fofZ n) = n -> dt_ok n = true ->
+  from_unixtime cfg vs fs = Ok (Some (TDateTime n (shown_zone cfg vs fs))) /\
+  forall (vs' : vars F) (fs' : fields F), field_is vs' "data" fs' (IDateTime n (shown_zone cfg vs fs)) ->
+    to_unixtime vs' fs' = Ok (Some (TNumber (fofZ n) Raw)).
+Proof. exact roundtrip_number. Qed.
+
+(* ... and date-time -> N -> the same instant *)
+Theorem C14_roundtrip_datetime : forall (vs : vars F) (fs : fields F) t z,
+  field_is vs "data" fs (IDateTime t z) -> as_i64 (fofZ t) = t -> dt_ok t = true ->
+  to_unixtime vs fs = Ok (Some (TNumber (fofZ t) Raw)) /\
+  forall (cfg : config F) (vs' : vars F) (fs' : fields F), field_is vs' "number" fs' (INumber (fofZ t) Raw) ->
+    from_unixtime cfg vs' fs' = Ok (Some (TDateTime t (shown_zone cfg vs' fs'))).
+Proof. exact roundtrip_datetime. Qed.
+
+(* '<date> at H': hours 0..23 give that hour of that day, 24 and more are declined *)
+Theorem C14_at_hour : forall (vs : vars F) (fs : fields F) d z x nt,
+  field_is vs "source" fs (IDate d z) -> field_is vs "time" fs (INumber x nt) ->
+  at_date vs fs = Ok (if as_u32 x <? 24 then Some (TDateTime (86400 * d + 3600 * as_u32 x) z) else None) /\
+  (as_u32 x < 24 ->
+   day_of_dt (86400 * d + 3600 * as_u32 x) = d /\
+   hms_of (secs_of_day (86400 * d + 3600 * as_u32 x)) = (as_u32 x, 0, 0)).
+Proof. exact at_date_hour. Qed.
+
+(* '<date> at <time>': that day, the time of day of the time *)
+Theorem C14_at_time : forall (vs : vars F) (fs : fields F) d z t tz,
+  field_is vs "source" fs (IDate d z) -> field_is vs "time" fs (ITime t tz) ->
+  at_date vs fs = Ok (Some (TDateTime (86400 * d + secs_of_day t) z)) /\
+  day_of_dt (86400 * d + secs_of_day t) = d /\
+  secs_of_day (86400 * d + secs_of_day t) = secs_of_day t.
+Proof. exact at_date_time. Qed.
+
+(* the printed timestamp is the decimal representation of the 64-bit integer *)
+Theorem C14_raw_print : forall (cfg : config F) lang ny n,
+  as_i64 (fofZ n) = n ->
+  item_print cfg lang ny (INumber (fofZ n) Raw) = Ok (Z_to_str n) /\
+  parse_i64 (Z_to_str n) = Some n.
+Proof. exact raw_print_all_digits. Qed.
+
+(* a printed date-time shows the civil fields of the instant shifted by the zone offset ... *)
+Theorem C14_datetime_print : forall (cfg : config F) lang now_year t tz,
+  datetime_print cfg lang now_year t tz =
+  match lang_format cfg lang with
+  | None => []
+  | Some fmt => fill_datetime cfg fmt now_year tz (fst (civil_of_ts (t + 60 * tz_off tz)))
+                                                  (snd (civil_of_ts (t + 60 * tz_off tz)))
+  end.
+Proof. exact datetime_print_fields. Qed.
+
+End WithNum.
+
+(* ... and these fields determine the instant (offset applied once, with the right sign) *)
+Theorem C14_datetime_fields : forall t off,
+  valid_ymd (fst (civil_of_ts (t + 60 * off))) /\ valid_hms (snd (civil_of_ts (t + 60 * off))) /\
+  ts_of_civil (fst (civil_of_ts (t + 60 * off))) (snd (civil_of_ts (t + 60 * off))) - 60 * off = t.
+Proof. exact datetime_fields_instant. Qed.
+
+(* every digit: for every integer z the text is an optional '-' and exactly as many digit
+   characters as |z| has decimal digits, and it reads back as z *)
+Theorem C14_prints_every_digit : forall z,
+  parse_i64 (Z_to_str z) = Some z /\
+  exists ds, Z_to_str z = (if z <? 0 then [45%N] else []) ++ ds /\
+             (ds <> [] /\ Forall (fun c => (48 <= c <= 57)%N) ds /\ Z.abs z < 10 ^ Z.of_nat (length ds) /\
+              (Z.abs z < 10 -> length ds = 1%nat) /\ (10 <= Z.abs z -> 10 ^ (Z.of_nat (length ds) - 1) <= Z.abs z)) /\
+             parse_digits ds 0 = Some (Z.abs z).
+Proof. exact z_to_str_decimal. Qed.
+
+(* the side condition `as_i64 (fofZ n) = n`: every i64 over the exact rationals; over binary64
+   (the executed instance) a checked family - day borders around the epoch, +-2^31, +-2^32, the
+   first and last seconds of the years 1..9999, 2^53; the first and the last second of
+   every year 1..9999; every second of four windows of 8193 seconds *)
+Theorem C14_number_keeps_timestamp_Q : forall n, - 2 ^ 63 <= n < 2 ^ 63 -> @as_i64 Qc NumQ (fofZ n) = n.
+Proof. exact as_i64_fofZ_Q. Qed.
+
+Theorem C14_number_keeps_timestamp_f64 : forall n,
+  (In n f64_family \/
+   (exists y, 1 <= y <= 9999 /\ (n = 86400 * days_from_civil y 1 1 \/ n = 86400 * days_from_civil (y + 1) 1 1 - 1)) \/
+   -4096 <= n <= 4096 \/ 2 ^ 31 - 4096 <= n <= 2 ^ 31 + 4096 \/
+   -62135596800 - 4096 <= n <= -62135596800 + 4096 \/ 253402300799 - 4096 <= n <= 253402300799 + 4096) ->
+  @as_i64 float NumF64 (fofZ n) = n.
+Proof. exact as_i64_fofZ_f64. Qed.
+
+(* '<date> at <time>' with the time written as wall clock w in a zone `off` minutes east (its
+   instant on the UTC date `today` is today*86400 + w - 60*off): shown in that zone the result
+   reads (d, w) whenever w - 60*off stays within the UTC day - always under UTC ... *)
+Theorem C14_at_time_wall_clock : forall d today w off,
+  0 <= w < 86400 -> 0 <= w - 60 * off < 86400 ->
+  day_of_dt (86400 * d + secs_of_day (dt_of today w - 60 * off) + 60 * off) = d /\
+  secs_of_day (86400 * d + secs_of_day (dt_of today w - 60 * off) + 60 * off) = w.
+Proof. exact at_time_wall_clock. Qed.
+
+(* ... and NOT otherwise: `12 march 2020 at 01:00` under the default zone GMT+3 is shown on
+   13 March (reported finding; the generator keeps '<date> at HH:MM' to the default zone UTC) *)
+Theorem C14_at_time_wall_clock_refuted :
+  exists d today w off, 0 <= w < 86400 /\
+    day_of_dt (86400 * d + secs_of_day (dt_of today w - 60 * off) + 60 * off) = d + 1.
+Proof. exact at_time_wall_clock_refuted. Qed.
+
+(* the three rules as configured in config.json (regenerated): the phrasings of the statement *)
+Theorem C14_rule_tables :
+  option_map (assoc (s "from_unixtime")) (assoc (s "en") d_rule_texts)
+  = Some (Some [s "{NUMBER:number} {GROUP:conversion:conversion_group} date";
+                s "{NUMBER:number} {GROUP:conversion:conversion_group} {TIMEZONE:timezone}";
+                s "{NUMBER:number} {TIMEZONE:timezone}";
+                s "{NUMBER:number} date"]) /\
+  option_map (assoc (s "to_unixtime")) (assoc (s "en") d_rule_texts)
+  = Some (Some [s "{DATETIME_DATE_TIME:data} {GROUP:conversion:conversion_group} {TEXT:type:unix}";
+                s "{DATETIME_DATE_TIME:data} {GROUP:conversion:conversion_group} {TEXT:type:unixtime}";
+                s "{DATETIME_DATE_TIME:data} {GROUP:conversion:conversion_group} {TEXT:type:unixtimestamp}";
+                s "{DATETIME_DATE_TIME:data} {TEXT:type:unix}";
+                s "{DATETIME_DATE_TIME:data} {TEXT:type:unixtime}";
+                s "{DATETIME_DATE_TIME:data} {TEXT:type:unixtimestamp}"]) /\
+  option_map (assoc (s "at_date")) (assoc (s "en") d_rule_texts)
+  = Some (Some [s "{DATE:source} at {NUMBER_OR_TIME:time}"]).
+Proof. exact rule_tables. Qed.
+
+(* through the whole executable pipeline (lexer, rules, interpreter, formatter; binary64), for
+   each N of the family: `x = N to date` is the date-time of N in UTC printed as datetime_print
+   says, `x as unix` is N printed with every digit, `N to EST` the same instant in EST,
+   `N to date as unix` is N *)
+Theorem C14_pipeline_roundtrip :
+  forallb (fun n =>
+    match run_lines (s "x = " ++ Z_to_str n ++ s " to date" ++ [10%N] ++ s "x as unix" ++ [10%N] ++
+               Z_to_str n ++ s " to EST" ++ [10%N] ++ Z_to_str n ++ s " to date as unix") with
+    | [a; b; c; d] => is_dt a n UTC && is_raw b n && is_dt c n EST && is_raw d n
+    | _ => false
+    end)
+    [0; 1; -1; 86399; 86400; -86400; -86401; 1609459200; 4102444800; 2147483647; 2147483648; -2147483648;
+     -2147483649; 4294967296; -62135596800; 253402300799; -62135596800 + 86399; 253402300799 - 86399;
+     1700000000; 1704067200; 1735689599] = true.
+Proof. exact e2e_ok. Qed.
+
+(* the same under six configured default zones: instant and timestamp unchanged, the text is
+   that of the zone, `N to UTC` overrides it, a date stays its midnight UTC *)
+Theorem C14_pipeline_zones :
+  forallb (fun z : string * Z =>
+    forallb (fun n =>
+      let tz := {| tz_name := s (fst z); tz_off := snd z |} in
+      match run_cfg (cfg_zone (s (fst z)))
+              (s "x = " ++ Z_to_str n ++ s " to date" ++ [10%N] ++ s "x as unix" ++ [10%N] ++ s "12/03/2020 as unix" ++
+               [10%N] ++ s "12/03/2020 at 10 as unix" ++ [10%N] ++ Z_to_str n ++ s " to UTC") with
+      | [a; b; c; d; e] => is_dt a n tz && is_raw b n && is_raw c 1583971200 && is_raw d 1584007200 && is_dt e n UTC
+      | _ => false
+      end) [0; -1; 86399; 1609459200; 4102444800; -2147483649; -62135596800; 253402300799])
+    [("GMT+3", 180); ("EST", -300); ("GMT-3:30", -210); ("GMT+14", 840); ("GMT-12", -720); ("HKT", 480)]%string = true.
+Proof. exact e2e_zones_ok. Qed.
+
+Theorem C14_pipeline_dates :
+  match run_lines (s "12/03/2020 as unix" ++ [10%N] ++ s "12 march 2020 at 10 as unix" ++ [10%N] ++ s "1 january 1 as unix" ++
+             [10%N] ++ s "31 december 9999 at 23 to unixtime" ++ [10%N] ++ s "12 march 2020 at 24") with
+  | [a; b; c; d; e] =>
+    is_raw a 1583971200 && is_raw b 1584007200 && is_raw c (-62135596800) && is_raw d (253402300799 - 3599) &&
+    match e with None => true | Some _ => false end
+  | _ => false
+  end = true.
+Proof. exact e2e_dates. Qed.
+
+(* non-vacuity: 1609459200 <-> 2021-01-01 00:00:00, beyond 2^31, before the epoch, zones *)
+Theorem C14_examples :
+  civil_of_ts 1609459200 = ((2021, 1, 1), (0, 0, 0)) /\
+  ts_of_civil (2021, 1, 1) (0, 0, 0) = 1609459200 /\
+  civil_of_ts 4102444800 = ((2100, 1, 1), (0, 0, 0)) /\
+  civil_of_ts (-1) = ((1969, 12, 31), (23, 59, 59)) /\
+  civil_of_ts (-86401) = ((1969, 12, 30), (23, 59, 59)) /\
+  civil_of_ts (local_of 1609459200 (-300)) = ((2020, 12, 31), (19, 0, 0)) /\
+  Z_to_str 4102444800 = s "4102444800" /\ Z_to_str (-62135596800) = s "-62135596800" /\ Z_to_str 0 = s "0" /\
+  datetime_print default_config (s "en") 2026 1609459200 UTC = s "1 Jan 2021 00:00:00 UTC" /\
+  datetime_print default_config (s "en") 2026 1609459200 GMT3 = s "1 Jan 2021 03:00:00 GMT+3" /\
+  datetime_print default_config (s "en") 2026 1609459200 EST = s "31 Dec 2020 19:00:00 EST" /\
+  datetime_print default_config (s "en") 2026 (-1) UTC = s "31 Dec 1969 23:59:59 UTC" /\
+  datetime_print default_config (s "en") 2026 4102444800 UTC = s "1 Jan 2100 00:00:00 UTC" /\
+  item_print default_config (s "en") 2026 (INumber (fofZ 4102444800) Raw) = Ok (s "4102444800") /\
+  dt_ok 4102444800 = true /\ dt_ok (-62135596800) = true /\ dt_ok (2 ^ 62) = false.
+Proof. exact examples. Qed.
+
+Print Assumptions C14_instant_decompose.
+Print Assumptions C14_instant_compose.
+Print Assumptions C14_civil_ts_roundtrip.
+Print Assumptions C14_ts_civil_roundtrip.
+Print Assumptions C14_years_1_9999.
+Print Assumptions C14_to_unixtime.
+Print Assumptions C14_from_unixtime.
+Print Assumptions C14_roundtrip_number.
+Print Assumptions C14_roundtrip_datetime.
+Print Assumptions C14_at_hour.
+Print Assumptions C14_at_time.
+Print Assumptions C14_raw_print.
+Print Assumptions C14_datetime_print.
+Print Assumptions C14_datetime_fields.
+Print Assumptions C14_prints_every_digit.
+Print Assumptions C14_number_keeps_timestamp_Q.
+Print Assumptions C14_number_keeps_timestamp_f64.
+Print Assumptions C14_at_time_wall_clock.
+Print Assumptions C14_at_time_wall_clock_refuted.
+Print Assumptions C14_rule_tables.
+Print Assumptions C14_pipeline_roundtrip.
+Print Assumptions C14_pipeline_zones.
+Print Assumptions C14_pipeline_dates.
+Print Assumptions C14_examples.
